@@ -154,7 +154,9 @@ def identify_missing_sections(existing_config: dict, all_sections: list[str]) ->
     Returns:
         List of section names missing from existing config
     """
-    return [s for s in all_sections if s not in existing_config]
+    # Section names may be spelled with hyphens or underscores (both are accepted on load)
+    present = {str(key).replace("_", "-") for key in existing_config}
+    return [s for s in all_sections if s.replace("_", "-") not in present]
 
 
 def _find_global_settings_position(content: str) -> int:
